@@ -16,8 +16,23 @@ use std::time::Duration;
 
 pub const KINDS: [&str; 8] = ["ietf_req", "classic_req", "invalid_req", "failed_send", "retried_send", "health", "rfc_resp", "classic_resp"];
 
+thread_local! {
+    /// address family of the client addresses: 0 = plain IPv4; 1 = a mix in which address 1 is the
+    /// IPv4-mapped IPv6 form of address 0 (distinct addresses to every recorder), further ones IPv6 /
+    /// IPv4-mapped
+    static ADDR_FAMILY: std::cell::Cell<u8> = std::cell::Cell::new(0);
+}
+
 fn addr(i: usize) -> IpAddr {
-    format!("10.0.0.{}", i + 1).parse().unwrap()
+    match ADDR_FAMILY.with(|f| f.get()) {
+        0 => format!("10.0.0.{}", i + 1).parse().unwrap(),
+        _ => match i {
+            0 => "192.0.2.7".parse().unwrap(),
+            1 => "::ffff:192.0.2.7".parse().unwrap(),
+            k if k % 2 == 0 => format!("2001:db8::{:x}", k + 1).parse().unwrap(),
+            k => format!("::ffff:10.0.0.{}", k % 250 + 1).parse().unwrap(),
+        },
+    }
 }
 
 fn bytes_arg(kind: usize, a: usize) -> usize {
@@ -275,6 +290,13 @@ pub fn unsendable_addresses() -> Vec<std::net::SocketAddr> {
 
 /// Two batches on one real Responder: the requests of `dests` in order, then in reverse order.
 /// Returns a description of the first disagreement between the recorder and the traffic.
+#[cfg(feature = "no_responder_api")]
+fn send_failure_case(_per_client: bool, _v: rtref::Version, _dests: &[usize], _bad: &[std::net::SocketAddr]) -> Result<Option<String>, String> {
+    crate::util::RESPONDER_API_SKIPPED.store(true, std::sync::atomic::Ordering::Relaxed);
+    Ok(None)
+}
+
+#[cfg(not(feature = "no_responder_api"))]
 fn send_failure_case(per_client: bool, v: rtref::Version, dests: &[usize], bad: &[std::net::SocketAddr]) -> Result<Option<String>, String> {
     use roughenough::config::MemoryConfig;
     use roughenough::key::LongTermKey;
@@ -393,13 +415,14 @@ pub fn run(ctx: &Ctx) -> Result<(), String> {
     // part 2: merge, all sequences of length <= L over 15 events
     let len2 = ctx.tier.pick(4usize, 5);
     let merge_n = AtomicU64::new(0);
-    for ops in MERGE_OP_SETS {
+    for (ops, family) in MERGE_OP_SETS.iter().flat_map(|o| [(*o, 0u8), (*o, 1u8)]) {
         let evs = merge_events_for(ops);
         let n = 15usize.pow(len2 as u32);
         // every sequence of exactly len2 events followed by a final `receive` (shorter sequences are prefixes)
         let nchunks = (n + 2047) / 2048;
         par_for(nchunks, 1, |ch, _| {
             // one long-lived rig per chunk: the reporter has no reset, the model is cumulative
+            ADDR_FAMILY.with(|f| f.set(family));
             let mut rig = MergeRig::with_ops(ops);
             for idx0 in ch * 2048..((ch + 1) * 2048).min(n) {
                 let mut idx = idx0;
@@ -430,10 +453,11 @@ pub fn run(ctx: &Ctx) -> Result<(), String> {
                     rig.workers[w].clear();
                 }
                 if let Some((clause, msg)) = bad {
-                    ctx.violation(&clause, "reporter", "merge", json!({"kind":"merge","ops":ops,"events":seq.iter().map(|&e| evs[e].clone()).collect::<Vec<_>>(),"chunk":ch,"message":msg}));
+                    ctx.violation(&clause, "reporter", "merge", json!({"kind":"merge","ops":ops,"address_family":family,"addresses":[addr(0).to_string(), addr(1).to_string()],"events":seq.iter().map(|&e| evs[e].clone()).collect::<Vec<_>>(),"chunk":ch,"message":msg}));
                     rig = MergeRig::with_ops(ops);
                 }
             }
+            ADDR_FAMILY.with(|f| f.set(0));
         });
     }
     // first_seen = min (own check on ClientStats merge via the reporter)
@@ -650,7 +674,7 @@ pub fn run(ctx: &Ctx) -> Result<(), String> {
     ctx.cov("sampled_evaluations", json!(sampled));
     ctx.cov("exhaustive", json!(true));
     ctx.cov("bound", json!({"recorder_len": len1, "recorder_ops": 25, "limits": [1, 2], "merge_len": len2, "merge_events": 15, "wiring_depth": ctx.tier.pick("4 (aggregated) / 3 (per-client)", "5 / 4")}));
-    ctx.cov("rule", json!(format!("(1) all sequences of length <= {} over 8 recording operations x 3 addresses + clear on the real PerClientStats (limit 1 and 2) and AggregatedStats, with a step oracle after every operation: the observable state (per-address counters, bytes, overflow count) changed by exactly the event's own counter +1 (bytes + argument) OR overflow +1; tracked <= limit; every getter equals the sum over rows; iter() == rows; aggregated totals equal per-client totals while overflow is 0. states = distinct canonical recorder states reached. (2) all sequences of {} events over {{record(w,op,addr) x12, snapshot(w0), snapshot(w1), receive}} (three explorations whose operation triples together hold all 8 recording kinds) + final receive through the real iter->force_push->clear hand-off, the real ArrayQueue (capacity 4) and the real Reporter::receive_client_stats, against a model queue that drops the oldest snapshot when full: reporter per-address sums == sums of popped snapshots. (3) C09 event histories extended with the periodic hand-off event on real Servers (aggregated and per-client recorder): recorded valid/classic/ietf/invalid/responses/bytes == datagrams actually sent and received (histories without hand-off; batch_size 1 and 3, and 3 with fault_percentage 50, where deliberately invalid replies differ in length); every hand-off returns even when the undrained queue is full (wedge watchdog), traffic still served. (4) the real Responder driven through its public API: every sequence (length <= 3, thorough 4) of return addresses over {{two receiving sockets, addresses send_to fails for (IPv6 on an IPv4 socket, port 0, broadcast)}} as one batch and then reversed as a second batch, both protocols, both recorders: responses / bytes recorded == datagrams / bytes that arrived, failed send attempts == unsendable addresses, after each batch.", len1, len2)));
+    ctx.cov("rule", json!(format!("(1) all sequences of length <= {} over 8 recording operations x 3 addresses + clear on the real PerClientStats (limit 1 and 2) and AggregatedStats, with a step oracle after every operation: the observable state (per-address counters, bytes, overflow count) changed by exactly the event's own counter +1 (bytes + argument) OR overflow +1; tracked <= limit; every getter equals the sum over rows; iter() == rows; aggregated totals equal per-client totals while overflow is 0. states = distinct canonical recorder states reached. (2) all sequences of {} events over {{record(w,op,addr) x12, snapshot(w0), snapshot(w1), receive}} (three explorations whose operation triples together hold all 8 recording kinds, each with two plain IPv4 addresses and again with an IPv4 address and its IPv4-mapped IPv6 form ::ffff:a.b.c.d, which are distinct addresses) + final receive through the real iter->force_push->clear hand-off, the real ArrayQueue (capacity 4) and the real Reporter::receive_client_stats, against a model queue that drops the oldest snapshot when full: reporter per-address sums == sums of popped snapshots. (3) C09 event histories extended with the periodic hand-off event on real Servers (aggregated and per-client recorder): recorded valid/classic/ietf/invalid/responses/bytes == datagrams actually sent and received (histories without hand-off; batch_size 1 and 3, and 3 with fault_percentage 50, where deliberately invalid replies differ in length); every hand-off returns even when the undrained queue is full (wedge watchdog), traffic still served. (4) the real Responder driven through its public API: every sequence (length <= 3, thorough 4) of return addresses over {{two receiving sockets, addresses send_to fails for (IPv6 on an IPv4 socket, port 0, broadcast)}} as one batch and then reversed as a second batch, both protocols, both recorders: responses / bytes recorded == datagrams / bytes that arrived, failed send attempts == unsendable addresses, after each batch.", len1, len2)));
     ctx.sample(json!({"kind":"recorder","limit":1,"names":["classic_req@a0","rfc_resp@a1","clear","health@a1"]}));
     ctx.sample(json!({"kind":"merge","events":["rec:w0:classic_req:a0","snap:w0","rec:w1:classic_req:a0","snap:w1","receive"]}));
     ctx.assume("part 2 reuses one Reporter per chunk of histories (Reporter::new allocates a 5M-entry map); the model is cumulative, so the oracle stays exact");
@@ -674,13 +698,17 @@ pub fn replay_case(c: &Value) -> Result<Option<String>, String> {
             };
             let evs = merge_events_for(ops);
             let seq: Vec<usize> = c["events"].as_array().ok_or("events")?.iter().filter_map(|e| evs.iter().position(|x| Some(x.as_str()) == e.as_str())).collect();
+            ADDR_FAMILY.with(|f| f.set(c["address_family"].as_u64().unwrap_or(0) as u8));
             let mut rig = MergeRig::with_ops(ops);
+            let mut out = None;
             for e in seq {
                 if let Some((a, b)) = rig.apply(e) {
-                    return Ok(Some(format!("{} {}", a, b)));
+                    out = Some(format!("{} {}", a, b));
+                    break;
                 }
             }
-            Ok(None)
+            ADDR_FAMILY.with(|f| f.set(0));
+            Ok(out)
         }
         Some("sendfail") => {
             let dests: Vec<usize> = c["destinations"].as_array().ok_or("destinations")?.iter().map(|x| x.as_u64().unwrap_or(0) as usize).collect();
